@@ -154,6 +154,46 @@ theorem C17_builder_duplicate_identical_counterexample : ¬ C17_builder_duplicat
   simp [hname, hd] at this
 
 
+/-- frame of `merge_into`: same number of builders, same order; a builder the destination selector
+    rejects is unchanged (in particular the *source* builder stays — it is merged, not moved) -/
+theorem C17_builder_merge_into_frame (pkg : String) (ss : Schemas) (dest src under : String) (ex : List String)
+    (ren : List (String × String)) (bs bs' : Builders)
+    (h : applyBRule pkg ss bs (.mergeInto dest src under ex ren) = .ok bs') :
+    All2 (fun b b' => (BSel.byName dest).matches pkg ss b = .ok false → b' = b) bs bs' := by
+  obtain ⟨r', h1, h2⟩ := mapToSelectedLoop_frame _ _ bs [] bs' h
+  simp at h1; subst h1; exact h2
+
+/-- frame of `compose`: either nothing changes at all (no source builder), or the result is the
+    builders the selector rejected, unchanged and in order, followed by the composed ones -/
+theorem C17_builder_compose_frame (pkg : String) (ss : Schemas) (sel : BSel) (cfg : ComposeCfg) (bs bs' : Builders)
+    (h : applyBRule pkg ss bs (.compose sel cfg) = .ok bs') :
+    bs' = bs ∨ ∃ composed,
+      bs' = bs.filter (fun b => match sel.matches pkg ss b with | .ok false => true | _ => false) ++ composed := by
+  simp only [applyBRule, composeBuilders] at h
+  cases hc : Str.cutDot cfg.sourceBuilderName with
+  | none => simp [hc] at h
+  | some sp =>
+    obtain ⟨p, n⟩ := sp
+    simp only [hc] at h
+    cases hl : locateByObject bs p n with
+    | none => simp [hl] at h; exact .inl h.symm
+    | some source =>
+      simp only [hl] at h
+      cases hp : composePartition pkg sel ss bs with
+      | err e => simp [hp] at h
+      | panic s => simp [hp] at h
+      | ok kg =>
+        obtain ⟨keep, tagged⟩ := kg
+        simp only [hp] at h
+        split at h
+        · rename_i composed _
+          simp at h
+          refine .inr ⟨composed, ?_⟩
+          rw [← h, composePartition_keep pkg sel ss bs keep tagged hp]
+          rfl
+        · simp at h
+        · simp at h
+
 /-! ## option actions: contracts -/
 
 /-- `omit` removes the option (and stores nothing) -/
